@@ -238,14 +238,19 @@ def run_check(prop, tier, verif_seed, replay_file=None, budget_override=None):
     records.sort(key=lambda r: r["index"])
     wall_explore = time.time() - t_start
 
-    have_violations = any(r.get("violations") for r in records) or bool(corpus_viol)
+    # recorded findings do not "explain" a determinism mismatch: only violations that will be reported do
+    known0 = load_known()
+    have_violations = any(not is_known(known0, prop, v) for r in list(records) + list(corpus_viol) for v in (r.get("violations") or []))
     # ---- determinism self-test (other process, other hash seed, 1 worker) ----
     det = {"checked": 0, "mismatch": 0}
+    process_history = None
     ok_recs = [r for r in records if not r.get("violations") and not r.get("variant")]
     nsel = int(budget.get("selftest", 6))
     if ok_recs and nsel:
         # prefer scenarios that are cheap to re-run (the re-run is serial, in one process)
         cheap = [r for r in ok_recs if r.get("wall", 0) <= 6.0] or ok_recs
+        if quantified_over_histories(prop) and len(cheap) >= 4 * nsel:
+            cheap = cheap[len(cheap) // 2:]      # scenarios with a long history of earlier scenarios in their worker process
         step = max(1, len(cheap) // nsel)
         sel = cheap[::step][:nsel]
         sout = os.path.join(rundir, "selftest.jsonl")
@@ -267,9 +272,19 @@ def run_check(prop, tier, verif_seed, replay_file=None, budget_override=None):
                 det["mismatch"] += 1
                 log(f"determinism mismatch at index {r['index']}: {r.get('obs_digest')} vs {r2 and r2.get('obs_digest')}")
         if det["mismatch"] and not have_violations:
-            log(f"HARNESS-ERROR property={prop} determinism self-test mismatch ({det}) - the same scenario gave different "
-                "observations in another process; no violation was found that would explain it")
-            return 2
+            # Same scenario, other observations in a fresh process.  If the fresh-process result is itself stable and the
+            # in-worker result is reproduced by running the worker's earlier scenarios first, the library's numbers
+            # depend on what the process did before: for a property quantified over histories that is a violation,
+            # reported with the (minimised) history as the replay file.  Anything else stays a harness error.
+            bad = [r for r in sel if (by.get(r["index"]) or {}).get("obs_digest") != r["obs_digest"]]
+            ph = None
+            if bad and quantified_over_histories(prop):
+                ph = process_history_violation(prop, tier, verif_seed, bad[0], nworkers, rundir, replays_dir, budget)
+            if ph is None:
+                log(f"HARNESS-ERROR property={prop} determinism self-test mismatch ({det}) - the same scenario gave different "
+                    "observations in another process; no violation was found that would explain it")
+                return 2
+            process_history = ph
 
     # ---- violations: known findings, minimisation, replay confirmation -------
     known = load_known()
@@ -320,6 +335,17 @@ def run_check(prop, tier, verif_seed, replay_file=None, budget_override=None):
         log(f"VIOLATION property={prop} replay={final}")
         reported += 1
 
+    if process_history is not None:
+        v, final = process_history
+        k = is_known(known, prop, v)
+        if k:
+            known_hits += 1
+            log(f"KNOWN-FINDING: property={prop} class={k['cls']} site={k['site']} :: {k['what']}")
+        else:
+            log(f"violation class={v['cls']} site={v['site']} detail={v['detail']}")
+            log(f"VIOLATION property={prop} replay={final}")
+            reported += 1
+
     # ---- evidence ------------------------------------------------------------
     wall_total = time.time() - t_start
     write_evidence(mod, prop, tier, verif_seed, records, corpus_run, det, reported, known_hits,
@@ -329,6 +355,114 @@ def run_check(prop, tier, verif_seed, replay_file=None, budget_override=None):
         return 1
     log(f"[{prop}] OK: {len(records)} scenarios, {sum(1 for r in records if r.get('nontrivial'))} non-trivial, "
         f"{corpus_run} corpus replays, determinism {det}, {wall_total:.0f}s")
+    return 0
+
+
+def quantified_over_histories(prop):
+    try:
+        for line in open(os.path.join(VERIF, "properties.jsonl")):
+            p = json.loads(line)
+            if p.get("id") == prop:
+                return "histories" in (p.get("quantifier") or {}).get("over", [])
+    except Exception:
+        pass
+    return False
+
+
+def _digests_in_one_process(files, rundir, hashseed):
+    """Run the scenario files in order in ONE fresh process; returns {file: obs_digest} or None."""
+    out = os.path.join(rundir, "seq-%d.jsonl" % (time.time_ns() % 10**9))
+    rc, outp = run_wait({"mode": "corpus", "files": files, "out": out}, worker_env(hashseed=hashseed), timeout=3600)
+    recs, done = read_jsonl(out)
+    if rc != 0 or not done or any(r.get("harness_error") for r in recs):
+        return None
+    return {r["file"]: r.get("obs_digest") for r in recs}
+
+
+def process_history_violation(prop, tier, verif_seed, rec, nworkers, rundir, replays_dir, budget):
+    """rec: explore record whose observations differ from a fresh process' (DESIGN 9).  Returns (violation, replay path)
+    if the difference is reproduced by the history of scenarios the worker ran before it, else None."""
+    i = int(rec["index"])
+    prefix = list(range(i % nworkers, i, nworkers))
+    hdir = os.path.join(rundir, "hist")
+    rc, outp = run_wait({"mode": "dump", "property": prop, "tier": tier, "verif_seed": verif_seed,
+                         "indices": prefix + [i], "dir": hdir}, worker_env(), timeout=900)
+    if rc != 0:
+        return None
+    fpath = lambda j: os.path.join(hdir, f"{j}.json")  # noqa: E731
+    target = fpath(i)
+    a1 = _digests_in_one_process([target], rundir, "11")
+    a2 = _digests_in_one_process([target], rundir, "12")
+    if not a1 or not a2 or a1[target] != a2[target]:
+        return None                      # not stable on its own: genuine nondeterminism, not history
+    alone = a1[target]
+
+    def differs(hist):
+        d = _digests_in_one_process([fpath(j) for j in hist] + [target], rundir, "13")
+        return d is not None and d.get(target) != alone
+
+    if not prefix or not differs(prefix):
+        return None
+    # minimise the history (ddmin over the prefix, bounded)
+    deadline = time.time() + float(budget.get("shrink_s", 60)) * 4
+    hist = list(prefix)
+    n = 2
+    while len(hist) >= 2 and time.time() < deadline:
+        size = max(1, len(hist) // n)
+        chunks = [hist[k:k + size] for k in range(0, len(hist), size)]
+        reduced = False
+        for c in chunks:
+            if time.time() > deadline:
+                break
+            if len(c) < len(hist) and differs(c):
+                hist, n, reduced = c, 2, True
+                break
+        if not reduced:
+            for c in chunks:
+                if time.time() > deadline:
+                    break
+                rest = [j for j in hist if j not in c]
+                if rest and differs(rest):
+                    hist, n, reduced = rest, max(n - 1, 2), True
+                    break
+        if not reduced:
+            if n >= len(hist):
+                break
+            n = min(len(hist), 2 * n)
+    with_hist = _digests_in_one_process([fpath(j) for j in hist] + [target], rundir, "14")
+    v = {"cls": "depends_on_process_history", "site": "observations",
+         "detail": f"scenario index {i} gives observation digest {alone} in a fresh process and {with_hist and with_hist.get(target)} "
+                   f"after {len(hist)} earlier scenario(s) (indices {hist[:8]}{'...' if len(hist) > 8 else ''}) in the same process: "
+                   "state kept at module level leaks from one analysis into the next"}
+    final = os.path.join(replays_dir, f"{prop}-{verif_seed}-{i}-prochist.json")
+    doc = {"property": prop, "kind": "process_history", "verif_seed": verif_seed, "tier": tier,
+           "history": [json.load(open(fpath(j))) for j in hist], "target": json.load(open(target)),
+           "alone_digest": alone, "violation": v, "minimised": {"history_from": len(prefix), "history_to": len(hist)}}
+    with open(final, "w") as f:
+        json.dump(doc, f, indent=1, sort_keys=True)
+    return v, final
+
+
+def replay_process_history(prop, path, rundir):
+    doc = json.load(open(path))
+    hdir = os.path.join(rundir, "hist")
+    os.makedirs(hdir, exist_ok=True)
+    files = []
+    for k, sc in enumerate(doc["history"] + [doc["target"]]):
+        fp = os.path.join(hdir, f"h{k}.json")
+        json.dump(sc, open(fp, "w"))
+        files.append(fp)
+    a = _digests_in_one_process([files[-1]], rundir, "21")
+    b = _digests_in_one_process(files, rundir, "22")
+    shutil.rmtree(rundir, ignore_errors=True)
+    if a is None or b is None:
+        log(f"HARNESS-ERROR property={prop} replay failed to run")
+        return 2
+    if a[files[-1]] != b[files[-1]]:
+        log(f"violation class=depends_on_process_history site=observations detail=alone {a[files[-1]]} vs after {len(files) - 1} earlier scenario(s) {b[files[-1]]}")
+        log(f"VIOLATION property={prop} replay={path}")
+        return 1
+    log("replay did not reproduce the recorded violation (property holds on this tree for this history)")
     return 0
 
 
@@ -342,6 +476,11 @@ def replay_once(path, env, rundir):
 
 def do_replay(prop, path, env, rundir):
     rc, outp = run_wait({"mode": "prime", "property": prop}, env, timeout=900)
+    try:
+        if json.load(open(path)).get("kind") == "process_history":
+            return replay_process_history(prop, path, rundir)
+    except Exception:
+        pass
     rc, res = replay_once(path, env, rundir)
     shutil.rmtree(rundir, ignore_errors=True)
     if rc != 0:
